@@ -339,7 +339,19 @@ def r18_8(chk, P):
             if el in ('char', 'unsigned char', 'signed char', 'void'):
                 continue
             folded = common.const_val(F, a[2]) is not None
-            has = any(F.ex[q].get('from') == 'sizeof' for q in F.walk(a[2]))
+            sdefs = common.single_defs(F)
+
+            def has_sizeof(e, depth=0):
+                for q in F.walk(e):
+                    qn = F.ex[q]
+                    if qn.get('from') == 'sizeof':
+                        return True
+                    # a byte count kept in a local: `const size_t bytes=sizeof(*p)*n; memcpy(d,s,bytes);`
+                    if qn['k'] == 'ref' and qn['decl'].get('kind') == 'var' and qn['decl'].get('id') in sdefs and depth < 3 \
+                            and has_sizeof(sdefs[qn['decl']['id']], depth + 1):
+                        return True
+                return False
+            has = has_sizeof(a[2])
             same = [x for x in F.calls() if F.ex[x]['callee'].get('d') == nm]
             same.sort(key=lambda x: F.ex[x].get('loc') or [0, 0])
             chk.ob('R18.8', F.name, f'{nm}#{same.index(c)}:size-is-a-byte-count', folded or has, F.where(c),
